@@ -79,7 +79,8 @@ theorem C20_conceal_only_positions (first last : Nat) (ms : List Message) :
 valid non-decreasing distances whose laps (sessions) are well-formed and follow each other in time, after concealing
 no lap (session) keeps a start/end position that belongs to an instant outside the revealed window, unless it was
 replaced by the coordinates of the first / last revealed record (`noLeakB`, FitModel/ActivitySpec.lean).
-FALSE on the pinned tree: see the two witnesses below (KF-C20-1 = design finding F17, KF-C20-2). -/
+FALSE on the pinned tree: see the witness below (KF-C20-1 = design finding F17; a second defect, KF-C20-2, was
+repaired in /repo by commit bd79ab7). -/
 def C20_conceal_lap_session_full : Prop :=
   ∀ (ph : PH) (first last : Nat) (ms : List Message), (ph = lapPH ∨ ph = sesPH) → DistOK ms → lapsSeqB ph ms = true →
     noLeakB ph first last ms (conceal first last ms) = true
@@ -107,12 +108,11 @@ theorem C20_conceal_lap_session_F17_witness :
     noLeakB lapPH 50000 0 f17Witness (conceal 50000 0 f17Witness) = false ∧
     unitsDisagree lapPH 50000 f17Witness = true := by decide +kernel
 
-/-- KF-C20-2: concealing the last 2000 m of the same 900 m activity conceals every record, yet lap 1 keeps all its
-positions -/
-theorem C20_conceal_lap_session_allend_witness :
-    distOKB f17Witness = true ∧ lapsSeqB lapPH f17Witness = true ∧
-    noLeakB lapPH 0 200000 f17Witness (conceal 0 200000 f17Witness) = false ∧
-    allConcealedAtEnd 200000 f17Witness = true := by decide +kernel
+/-- KF-C20-2 (fixed by /repo commit bd79ab7): concealing the last 2000 m of the same 900 m activity conceals every
+record; lap 1 used to keep all its positions — with the fixed `updateEndPosition` the statement holds on the witness -/
+theorem C20_conceal_lap_session_allend_fixed :
+    distOKB f17Witness = true ∧ lapsSeqB lapPH f17Witness = true ∧ allConcealedAtEnd 200000 f17Witness = true ∧
+    noLeakB lapPH 0 200000 f17Witness (conceal 0 200000 f17Witness) = true := by decide +kernel
 
 /-! ## remover -/
 
